@@ -14,6 +14,7 @@ import (
 	"fmt"
 	"net"
 	"net/netip"
+	"os"
 	"strings"
 	"testing"
 	"time"
@@ -153,6 +154,8 @@ type feeder struct {
 	target  string
 	n       int64
 	stopped bool
+	// delivered counts the crafted datagrams a client target actually read
+	delivered int64
 }
 
 // over reports (once) that the internal deadline passed; enumerations stop there.
@@ -572,6 +575,9 @@ func (fd *feeder) runClient(ct *clientTarget) {
 		if fd.over() {
 			return
 		}
+		if dbg := os.Getenv("C08_ONLY"); dbg != "" && sdname != "probe" && dbg != sdname+" "+mut {
+			return
+		}
 		fd.n++
 		fd.r.Journal(fmt.Sprintf("%s %s %s", ct.name, sdname, mut))
 		fd.r.Evals++
@@ -599,8 +605,12 @@ func (fd *feeder) runClient(ct *clientTarget) {
 		}
 		req := reqs[len(reqs)-1]
 		b, from := mk(req)
+		reads := sock.Reads.Load()
 		sock.Deliver(&vnet.Datagram{From: from, To: sock.Local(), Data: b, RxTime: w.Clock.Peek()})
 		w.Settle()
+		if sock.Reads.Load() > reads {
+			fd.delivered++
+		}
 		if fd.checkPanics(sdname, mut, b) {
 			return
 		}
@@ -1007,6 +1017,11 @@ func TestCheck(t *testing.T) {
 					ct := clientTargets(fd)[u.idx]
 					fd.target = ct.name
 					fd.runClient(ct)
+					r.Extra["n_delivered_"+ct.name] = fd.delivered
+					r.Extra["n_crafted_"+ct.name] = fd.n
+					if !fd.stopped && fd.delivered*10 < fd.n*9 {
+						r.Fail(ct.name, "harness", fmt.Sprintf("client target %s read only %d of %d crafted datagrams: the target is not being exercised", ct.name, fd.delivered, fd.n), nil)
+					}
 				}
 				k := "n_" + u.group
 				if v, ok := r.Extra[k].(int64); ok {
